@@ -360,6 +360,8 @@ def _mk_solver(spec):
     with warnings.catch_warnings():
         warnings.simplefilter("ignore")
         if spec["solver"] == "su":
+            if spec.get("h"):
+                return ode.SolveUnc(m, b, k, spec["h"], rb=rb, rf=spec["rf"], pre_eig=spec["pre_eig"])
             return ode.SolveUnc(m, b, k, rb=rb, rf=spec["rf"], pre_eig=spec["pre_eig"])
         return ode.FreqDirect(m, b, k, rb=rb, rf=spec["rf"])
 
@@ -656,9 +658,15 @@ def _psd_case(rs, sysd, solver):
     n = np.shape(sysd["k"])[0]
     nf = int(rs.integers(2, 6))
     freq = np.sort(rs.uniform(0.5, 40.0, nf))
-    p = int(rs.integers(1, 4))
+    p = int(rs.integers(1, 4)) if rs.random() < 0.6 else int(rs.integers(4, 7))
     t_frc = rs.standard_normal((n, p))
     fpsd = rs.uniform(0.0, 5.0, (p, nf))
+    if p >= 2 and rs.random() < 0.4:
+        # some forces with an identically zero PSD, in any position (not all of them)
+        z = rs.random(p) < 0.45
+        if z.all():
+            z[int(rs.integers(0, p))] = False
+        fpsd[z] = 0.0
     q = int(rs.integers(1, 4))
     flags = [bool(rs.random() < 0.7) for _ in range(4)]
     if not any(flags):
@@ -972,6 +980,59 @@ def _oracle_psd(spec):
     return out
 
 
+def _oracle_sequence(spec, rs):
+    """one solver object used for several things in a row: fsolve -> (tsolve / generator / get_f2x) -> fsolve must
+    give what a fresh object gives (no state may leak from one call into the next)"""
+    out = []
+    if spec["solver"] != "su":
+        return out
+    s = dict(spec, h=0.01)
+    _, ref = _run_impl(s)
+    if isinstance(ref, tuple):
+        return out
+    try:
+        ts = _mk_solver(s)
+    except Exception:  # noqa: BLE001
+        return out
+    n = _dec(s["k"]).shape[0]
+    F, freq = _dec(s["F"]), np.array(s["freq"])
+    steps = []
+    try:
+        with warnings.catch_warnings():
+            warnings.simplefilter("ignore")
+            first = ts.fsolve(F, freq, incrb=s["incrb"], rf_disp_only=s["rfd"])
+            steps.append("fsolve")
+            Ft = rs.standard_normal((n, int(rs.integers(2, 6))))
+            kind = int(rs.integers(0, 3))
+            if kind == 0:
+                ts.tsolve(Ft)
+                steps.append("tsolve")
+            elif kind == 1:
+                gen, d, v = ts.generator(Ft.shape[1], Ft[:, 0])
+                for i in range(1, Ft.shape[1]):
+                    gen.send((i, Ft[:, i]))
+                ts.finalize()
+                steps.append("generator")
+            else:
+                ts.get_f2x(rs.standard_normal((2, n)))
+                ts.tsolve(Ft)
+                steps.append("get_f2x+tsolve")
+            again = ts.fsolve(F, freq, incrb=s["incrb"], rf_disp_only=s["rfd"])
+            steps.append("fsolve")
+    except Exception:  # noqa: BLE001 - e.g. time-domain use not available for this system: not part of this oracle
+        return out
+    for tag, sol in (("first", first), ("after-" + steps[1], again)):
+        for nm in ("d", "v", "a"):
+            x, y = np.asarray(getattr(sol, nm)), np.asarray(getattr(ref, nm))
+            if x.shape != y.shape or _rel(x - y, y) > 1e-10:
+                out.append({"family": "call-sequence-%s-fsolve-%s" % (steps[1], "coupled" if not spec["unc"] else "uncoupled"),
+                            "what": "fsolve on an object that was used for %s in between differs from fsolve on a fresh object (%s, %s)"
+                                    % (steps[1], tag, nm), "input": dict(s, sequence=steps),
+                            "observed": float(_rel(x - y, y)) if x.shape == y.shape else list(x.shape), "required": "<= 1e-10"})
+                return out
+    return out
+
+
 def _other(spec):
     """the same problem for the other solver (None when the comparison is outside the domain)"""
     if spec["pre_eig"] or "drm" in spec:
@@ -1030,6 +1091,10 @@ def search(ctx, hints):
             fails = _oracle_fsolve(spec, _other(spec))
         if add(fails):
             return
+        if "drm" not in spec and spec["solver"] == "su" and ctx.rng.random() < 0.12:
+            ctx.count("oracle-call-sequences")
+            if add(_oracle_sequence(spec, rs)):
+                return
     cands = [s for s in systems if not s["boundary"]]
     for _ in range(ctx.pick(60, 400)):
         sysd = cands[int(rs.integers(0, len(cands)))]
